@@ -1,6 +1,7 @@
 //! focasim — deterministic simulation checks for caio/foca. See /verif/DESIGN.md.
 mod chaos;
 mod checks;
+mod exhaust;
 mod codec;
 mod frame;
 mod handler;
